@@ -45,7 +45,7 @@ func (ref Reference) CompletionAtPos(ctx context.Context, pos hcl.Pos) []lang.Ca
 		}
 		candidates := make([]lang.Candidate, 0)
 		ref.pathCtx.ReferenceTargets.MatchWalk(ctx, ref.cons, "", outerBodyRng, editRng, func(target reference.Target) error {
-			address := target.Address(ctx, editRng.Start).String()
+			address := targetAddressAtPos(ctx, target, editRng.Filename, editRng.Start).String()
 
 			candidates = append(candidates, lang.Candidate{
 				Label:       address,
@@ -97,7 +97,7 @@ func (ref Reference) CompletionAtPos(ctx context.Context, pos hcl.Pos) []lang.Ca
 
 	candidates := make([]lang.Candidate, 0)
 	ref.pathCtx.ReferenceTargets.MatchWalk(ctx, ref.cons, prefix, outerBodyRng, editRng, func(target reference.Target) error {
-		address := target.Address(ctx, editRng.Start).String()
+		address := targetAddressAtPos(ctx, target, editRng.Filename, editRng.Start).String()
 
 		candidates = append(candidates, lang.Candidate{
 			Label:       address,
@@ -113,4 +113,16 @@ func (ref Reference) CompletionAtPos(ctx context.Context, pos hcl.Pos) []lang.Ca
 		return nil
 	})
 	return candidates
+}
+
+// targetAddressAtPos returns the address to present for target at a position
+// of the given file. A block-local address (such as self.*) is only valid
+// inside the range the target is targetable from; hcl.Range.ContainsPos, which
+// Target.Address relies on, compares offsets only and would accept the same
+// offset in another file.
+func targetAddressAtPos(ctx context.Context, target reference.Target, filename string, pos hcl.Pos) lang.Address {
+	if target.TargetableFromRangePtr != nil && target.TargetableFromRangePtr.Filename != filename && len(target.Addr) > 0 {
+		return target.Addr
+	}
+	return target.Address(ctx, pos)
 }
